@@ -39,9 +39,14 @@ def mul (a b : Q) : Q := norm (a.num * b.num) (a.den * b.den)
 def neg (a : Q) : Q := ⟨-a.num, a.den⟩
 def abs (a : Q) : Q := ⟨(a.num.natAbs : Int), a.den⟩
 
-/-- `a / b` : panics when `b` is zero -/
+/-- `a / b` : panics exactly when `b` is zero; the quotient `a.num·b.den / (a.den·b.num)`
+    is reduced and the sign moved to the numerator -/
 def div (a b : Q) : Outcome Q :=
-  if b.num = 0 then .panic else new (a.num * b.den) (a.den * b.num)
+  if b.num = 0 then .panic
+  else
+    let n := a.num * b.den
+    let d := (a.den : Int) * b.num
+    if d < 0 then .ok (norm (-n) (-d).toNat) else .ok (norm n d.toNat)
 
 /-- `a > b` (`PartialOrd` of `Ratio`: compares values) -/
 def gt (a b : Q) : Bool := decide (a.num * b.den > b.num * a.den)
